@@ -75,6 +75,11 @@ def is_const(a):
     return a[0] == 'c'
 
 
+def is_key(a):
+    """a value that can be an exact dict key for the analysis: a constant or a class (tables keyed by exception type)"""
+    return a[0] == 'c' or a[0] == 'cls'
+
+
 def av(*atoms):
     return frozenset(atoms)
 
@@ -2162,7 +2167,7 @@ class Interp:
         for a in cont:
             k = a[0]
             if k == 'kdict':
-                ck = [x for x in key if is_const(x)]
+                ck = [x for x in key if is_key(x)]
                 if len(key) == 1 and ck:
                     items = list(a[1])
                     for i, (kk, vv) in enumerate(items):
@@ -2196,13 +2201,13 @@ class Interp:
                     for _, vv in a[1]:
                         vals = join(vals, erase_tags(vv))
                     ks = frozenset(kk for kk, _ in a[1])
-                    nonconst = frozenset(x for x in key if not is_const(x))
+                    nonconst = frozenset(x for x in key if not is_key(x))
                     ks2 = None if nonconst else ks | frozenset(ck)
                     new.add(('dict', ks2, vals, nonconst))
                 changed = True
             elif k == 'dict':
-                ck = frozenset(x for x in key if is_const(x))
-                nonconst = frozenset(x for x in key if not is_const(x))
+                ck = frozenset(x for x in key if is_key(x))
+                nonconst = frozenset(x for x in key if not is_key(x))
                 ks = None if (a[1] is None or nonconst) else a[1] | ck
                 new.add(('dict', ks, join(a[2], erase_tags(val)), join(a[3], nonconst)))
                 changed = True
@@ -2714,7 +2719,7 @@ class Interp:
                         vals = join(vals, av(TOP))
                 continue
             kv = self.eval(fr, k)
-            if len(kv) == 1 and is_const(next(iter(kv))):
+            if len(kv) == 1 and is_key(next(iter(kv))):
                 kk = next(iter(kv))
                 items = [(k2, v2) for k2, v2 in items if k2 != kk] + [(kk, vv)]
             else:
@@ -2726,8 +2731,8 @@ class Interp:
         ks = frozenset(k for k, _ in items)
         for _, v in items:
             vals = join(vals, erase_tags(v))
-        nonconst = frozenset(a for a in keys if not is_const(a))
-        ks = ks | frozenset(a for a in keys if is_const(a))
+        nonconst = frozenset(a for a in keys if not is_key(a))
+        ks = ks | frozenset(a for a in keys if is_key(a))
         return av(('dict', None if nonconst else ks, vals, nonconst))
 
     def ex_JoinedStr(self, fr, node):
@@ -3123,8 +3128,8 @@ class Interp:
                         out = join(out, e)
             elif k == 'kdict':
                 d = dict(a[1])
-                consts = [x for x in idx if is_const(x)]
-                other = [x for x in idx if not is_const(x)]
+                consts = [x for x in idx if is_key(x)]
+                other = [x for x in idx if not is_key(x)]
                 for c in consts:
                     if c in d:
                         out = join(out, d[c])
@@ -3288,7 +3293,7 @@ class Interp:
 
     def ex_DictComp(self, fr, node):
         exact, res = self.comprehension(fr, node, [node.key, node.value])
-        if exact and all(len(k) == 1 and is_const(next(iter(k))) for k, _ in res):
+        if exact and all(len(k) == 1 and is_key(next(iter(k))) for k, _ in res):
             items = []
             for k, v in res:
                 kk = next(iter(k))
@@ -3298,8 +3303,8 @@ class Interp:
         for k, v in res:
             keys = join(keys, k)
             vals = join(vals, erase_tags(v))
-        nonconst = frozenset(a for a in keys if not is_const(a))
-        ks = frozenset(a for a in keys if is_const(a))
+        nonconst = frozenset(a for a in keys if not is_key(a))
+        ks = frozenset(a for a in keys if is_key(a))
         return av(('dict', None if nonconst else ks, vals, nonconst))
 
     # -- conditions and refinement ------------------------------------------------------------------------------------------
@@ -3705,7 +3710,10 @@ class Interp:
         if k == 'caught':
             res = set()
             for rec in self.caught_tbl.get(a[1], []):
-                res.add(self.atom_is_instance(rec.atom, names, exact))
+                r_ = self.atom_is_instance(rec.atom, names, exact)
+                if r_ == 'f' and not isinstance(rec.origin, ast.Raise) and any(self.is_subclass(n_, rec.atom[1]) for n_ in names):
+                    r_ = '?'        # a library raiser stands for any exception below its class
+                res.add(r_)
             return res.pop() if len(res) == 1 else '?'
         prim = None
         if is_str_atom(a):
@@ -4613,6 +4621,10 @@ class Interp:
                 return True
             if a[0] in ('list', 'set') and _depth < 2 and Interp.has_behaviour(a[1], _depth + 1):
                 return True
+            if a[0] == 'kdict' and _depth < 2 and any(k_[0] == 'cls' or Interp.has_behaviour(v_, _depth + 1) for k_, v_ in a[1]):
+                return True
+            if a[0] == 'dict' and _depth < 2 and (Interp.has_behaviour(a[2], _depth + 1) or any(k_[0] == 'cls' for k_ in (a[1] or ())) or Interp.has_behaviour(a[3], _depth + 1)):
+                return True
         return False
 
     def construct_builtin(self, fr, cname, args, node):
@@ -5110,7 +5122,7 @@ class Interp:
                 out = BOT
                 miss = False
                 for c in x:
-                    if is_const(c):
+                    if is_key(c):
                         if c in d:
                             out = join(out, d[c])
                         else:
@@ -5182,7 +5194,7 @@ class Interp:
             return av(NONE), new
         if attr == 'setdefault' and x is not None:
             default = pos[1] if len(pos) > 1 else av(NONE)
-            if k == 'kdict' and len(x) == 1 and is_const(next(iter(x))):
+            if k == 'kdict' and len(x) == 1 and is_key(next(iter(x))):
                 c = next(iter(x))
                 d = dict(a[1])
                 if c in d:
